@@ -511,6 +511,10 @@ func c07Audit(p *Prog, r *Report, prefixed *ssa.Function) {
 						case ik == "(len("+sk0+") - 1)" && (rs["0 != len("+sk0+")"] || rs["0 < len("+sk0+")"] || strings.HasPrefix(sk0, "strings.Split(")):
 							r.OK("R07b", "varindex "+key, instrPos(in), "last element of a slice known to be non-empty (length test, or strings.Split, which returns at least one element)")
 						default:
+							if why := structuralIndexBound(p, f, x); why != "" {
+								r.OK("R07b", "varindex "+key, instrPos(in), why)
+								return
+							}
 							if why, ok := auditFind(c07VarIndices, key); ok {
 								r.OK("R07b", "varindex "+key, instrPos(in), "audited: "+why)
 							} else {
@@ -1379,4 +1383,135 @@ func (p *Prog) specAssertInvariant(fn *ssa.Function, ta *ssa.TypeAssert) string 
 	}
 	sort.Strings(names)
 	return fmt.Sprintf("go/ast: the slice is the Specs of a GenDecl whose Tok is %s (facts here and at every call site), and such a declaration holds only %s", strings.Join(names, "/"), types.TypeString(ta.AssertedType, qualNone))
+}
+
+// structuralIndexBound: bounds of variable indices that are established by construction rather than by a
+// dominating comparison:
+//   - the index is a field of a struct all of whose stores (in the package) are range-loop indices — an id
+//     made only from positions of the slices it later indexes (declId{fileIdx, declIdx});
+//   - inside a closure, the index is the loop index handed to the closure (as an argument of the go/call
+//     statement or through a per-iteration captured variable) and the slice is a captured slice made with
+//     the length of the very slice the loop ranges over.
+func structuralIndexBound(p *Prog, f *ssa.Function, x *ssa.IndexAddr) string {
+	// (1) field built only from loop indices
+	if o, fld, ok := fieldOf(x.Index); ok && o.Obj().Pkg() != nil && InRepo(o.Obj().Pkg().Path()) {
+		n, all := 0, true
+		for _, g := range p.FuncsIn(o.Obj().Pkg().Path()) {
+			p.instrs(g, func(b *ssa.BasicBlock, i int, in ssa.Instruction) {
+				st, ok := in.(*ssa.Store)
+				if !ok {
+					return
+				}
+				if o2, f2, ok := fieldOf(st.Addr); ok && o2 == o && f2 == fld {
+					n++
+					if !isLoopIndex(st.Val) {
+						all = false
+					}
+				}
+			})
+		}
+		if n > 0 && all {
+			return fmt.Sprintf("%s.%s is only ever assigned range-loop indices (%d construction sites): the id is a position in the slice it indexes", o.Obj().Name(), fld, n)
+		}
+	}
+	// (2) closure indexed by the loop index of its creator
+	par := f.Parent()
+	if par == nil {
+		return ""
+	}
+	var mc *ssa.MakeClosure
+	var site ssa.Instruction
+	var callArgs []ssa.Value
+	p.instrs(par, func(b *ssa.BasicBlock, i int, in ssa.Instruction) {
+		if m, ok := in.(*ssa.MakeClosure); ok && m.Fn == ssa.Value(f) {
+			mc = m
+			for _, rf := range refs(m) {
+				switch c := rf.(type) {
+				case *ssa.Go:
+					site, callArgs = c, c.Call.Args
+				case *ssa.Call:
+					if c.Call.Value == ssa.Value(m) {
+						site, callArgs = c, c.Call.Args
+					}
+				case *ssa.Defer:
+					site, callArgs = c, c.Call.Args
+				}
+			}
+		}
+	})
+	if mc == nil || site == nil {
+		return ""
+	}
+	binding := func(fv *ssa.FreeVar) ssa.Value {
+		for i, v := range f.FreeVars {
+			if v == fv && i < len(mc.Bindings) {
+				return mc.Bindings[i]
+			}
+		}
+		return nil
+	}
+	// the index
+	idxOK := false
+	switch iv := x.Index.(type) {
+	case *ssa.Parameter:
+		for i, pa := range f.Params {
+			if pa == iv && i < len(callArgs) && isLoopIndex(callArgs[i]) {
+				idxOK = true
+			}
+		}
+	case *ssa.UnOp:
+		if fv, ok := iv.X.(*ssa.FreeVar); ok {
+			if al, ok := binding(fv).(*ssa.Alloc); ok && inLoop(al.Block()) {
+				n, all := 0, true
+				for _, rf := range refs(al) {
+					if st, ok := rf.(*ssa.Store); ok && st.Addr == ssa.Value(al) {
+						n++
+						if !isLoopIndex(st.Val) {
+							all = false
+						}
+					}
+				}
+				idxOK = n > 0 && all
+			}
+		}
+	}
+	if !idxOK {
+		return ""
+	}
+	// the slice: captured variable holding make([]T, len(K)) where the creator's loop ranges over K
+	ld, ok := x.X.(*ssa.UnOp)
+	if !ok {
+		return ""
+	}
+	fv, ok := ld.X.(*ssa.FreeVar)
+	if !ok {
+		return ""
+	}
+	al, ok := binding(fv).(*ssa.Alloc)
+	if !ok {
+		return ""
+	}
+	lenKey := ""
+	nStore := 0
+	for _, rf := range refs(al) {
+		if st, ok := rf.(*ssa.Store); ok && st.Addr == ssa.Value(al) {
+			if !reachesInstr(st, site) {
+				continue // an assignment on a path that never creates the closure
+			}
+			nStore++
+			if ms, ok := st.Val.(*ssa.MakeSlice); ok && (lenKey == "" || lenKey == sk(ms.Len)) {
+				lenKey = sk(ms.Len)
+			} else {
+				return ""
+			}
+		}
+	}
+	if nStore == 0 || !strings.HasPrefix(lenKey, "len(") {
+		return ""
+	}
+	rs := p.RelsAt(p.Rels(par), site)
+	if rs["(phi:rangeindex + 1) < "+lenKey] {
+		return "the closure receives the index of its creator's range loop over " + strings.TrimSuffix(strings.TrimPrefix(lenKey, "len("), ")") + " and the captured slice was made with that length"
+	}
+	return ""
 }
